@@ -206,6 +206,16 @@ class Fac:
     def raises_key(self, k):
         return False
 
+    def aux_functions(self):
+        """every other Python function of the factory's own code (helpers a change may introduce, e.g. a
+        `__trim_strong_cache`): scheduled line by line too, without a model counterpart"""
+        from dateutil.tz import _factories as F
+        out = []
+        for cls in vars(F).values():
+            if isinstance(cls, type) and cls.__module__ == F.__name__:
+                out += [v for v in vars(cls).values() if inspect.isfunction(v)]
+        return out
+
     def compares_identity(self, k, cached):
         """identity classes are compared for cached results and for results that are an existing shared object"""
         return cached
@@ -326,6 +336,10 @@ class GettzFac(Fac):
 
     def install_lock(self, lock):
         self.f._cache_lock = lock
+
+    def aux_functions(self):
+        # all methods of GettzFunc (not the staticmethod nocache: name resolution touches no shared state of the factory)
+        return [v for k, v in vars(type(self.f)).items() if inspect.isfunction(v)]
 
     def call(self, k, variant=0):
         return self.f(self.names[k]) if variant % 2 else self.f(name=self.names[k])
@@ -730,6 +744,10 @@ def build_tables(fac, lenient=False):
             table = {}
         tables[fn.__code__] = (tag, table)
         info[tag] = table
+    info["aux"] = {}
+    for fn in fac.aux_functions():
+        if fn.__code__ not in tables:
+            tables[fn.__code__] = ("aux", {})
     return tables, info, unmapped
 
 
@@ -802,6 +820,7 @@ def run_threads(fac, scripts, policy, env_rng=None, env_rate=0.0, max_steps=5000
     steps = 0
     tokens = []                              # epoch tokens (kept alive so identity is meaningful)
     last_epoch = [0] * n
+    pending_fresh = [False] * n
 
     def epoch_index():
         tok = fac.f._GettzFunc__instances if isinstance(fac, GettzFac) else None
@@ -865,11 +884,15 @@ def run_threads(fac, scripts, policy, env_rng=None, env_rate=0.0, max_steps=5000
             for e in order[nret:]:
                 e["epoch"] = last_epoch[c]
             trace.append((c, before, after))
-            if fires(before):
-                if before[0] == "start" and before[1] == "fresh":
+            if before[0] == "start" and before[1] == "fresh":
+                pending_fresh[c] = True          # instance / nocache: one model step, taken when the call completes
+            if pending_fresh[c]:
+                if after[0] in ("start", "done"):
+                    pending_fresh[c] = False
                     labels.append("r%d" % c)
-                else:
-                    labels.append("m%d" % c)
+                    expect.append("idle")
+            elif fires(before):
+                labels.append("m%d" % c)
                 expect.append(pc_of(after))
     finally:
         sched.stop()
